@@ -647,6 +647,7 @@ class SyncManager(Runnable):
         assert sync[changed].temp_file
 
         synced = OTHER_SIDE[changed]
+        temp_fh = None
         try:
             temp_fh = open(sync[changed].temp_file, "rb")
             info = self.providers[synced].upload(sync[synced].oid, temp_fh)
